@@ -2,6 +2,7 @@ package main
 
 import (
 	"fmt"
+	"go/constant"
 	"go/types"
 	"sort"
 	"strings"
@@ -16,7 +17,7 @@ func init() {
 			"R2 no ambient input: the import set of the core packages is within the pure whitelist, there is no go statement, channel operation, select, or range over a map outside init; " +
 			"R3 no aliasing out of a parse: no ast node type can reach *Lexer/*Parser/*token.File through its fields, tokens stored in the AST are Clone() results, File.lines is written only by File.init on its own receiver. " +
 			"Together: every write of a call goes to memory allocated in that call or owned by its Parser, every read of shared memory reads data immutable after initialisation. Assumes the standard-library functions used are pure.",
-		Rules: []ruleFn{ruleC18R1, ruleC18R2, ruleC18R3},
+		Rules: []ruleFn{ruleC18R1, ruleC18R2, ruleC18R3, ruleC18R4},
 	})
 }
 
@@ -474,4 +475,195 @@ func (w *World) trackHolder(v ssa.Value, origin string, seen map[ssa.Value]bool,
 			}
 		}
 	}
+}
+
+// ruleC18R4: nothing address-valued is formatted. fmt prints a pointer that is not at the top level of the operand
+// (and any pointer under %p, %d, %x; any func, chan, unsafe.Pointer) as its address, and a top-level pointer to a
+// struct as &{fields…} with nested pointers as addresses: an error message or an SQL text built from such an
+// operand differs between two identical calls. The rule looks at every value boxed into the variadic ...any
+// argument of a formatting function (fmt.*, and the module's own printf-style wrappers), by static type.
+func ruleC18R4(w *World, r *Report) {
+	const rule = "C18/R4"
+	r.rule(rule, "every operand boxed into the ...any argument of a formatting call in the core packages has an address-free static type (basic, named basic, or a type with its own String/Error method; structs/slices/arrays of those): no pointer, map, func, chan or empty interface is formatted into a message or an SQL text (%T operands and messages of provably unreachable panics excepted)", 100)
+	var stringer, errIfc *types.Interface
+	errIfc, _ = types.Universe.Lookup("error").Type().Underlying().(*types.Interface)
+	stringer = types.NewInterfaceType([]*types.Func{types.NewFunc(0, nil, "String", types.NewSignatureType(nil, nil, nil, nil, types.NewTuple(types.NewVar(0, nil, "", types.Typ[types.String])), false))}, nil)
+	stringer.Complete()
+	var addrFree func(t types.Type, depth int) (bool, string)
+	addrFree = func(t types.Type, depth int) (bool, string) {
+		if depth > 6 {
+			return false, "type too deep"
+		}
+		if types.Implements(t, errIfc) || types.Implements(t, stringer) {
+			return true, ""
+		}
+		switch u := t.Underlying().(type) {
+		case *types.Basic:
+			if u.Kind() == types.UnsafePointer || u.Kind() == types.Uintptr {
+				return false, "unsafe pointer / uintptr"
+			}
+			return true, ""
+		case *types.Slice:
+			return addrFree(u.Elem(), depth+1)
+		case *types.Array:
+			return addrFree(u.Elem(), depth+1)
+		case *types.Struct:
+			for i := 0; i < u.NumFields(); i++ {
+				if ok, why := addrFree(u.Field(i).Type(), depth+1); !ok {
+					return false, "field " + u.Field(i).Name() + ": " + why
+				}
+			}
+			return true, ""
+		case *types.Pointer:
+			return false, "pointer " + t.String() + " (printed as an address, or as &{…} with the addresses of what it points to)"
+		case *types.Map:
+			return false, "map " + t.String()
+		case *types.Chan, *types.Signature:
+			return false, "func/chan value (printed as an address)"
+		case *types.Interface:
+			return false, "interface " + t.String() + " (dynamic type unknown)"
+		}
+		return false, "type " + t.String()
+	}
+	isAnySlice := func(t types.Type) bool {
+		sl, ok := t.Underlying().(*types.Slice)
+		if !ok {
+			return false
+		}
+		ifc, ok := sl.Elem().Underlying().(*types.Interface)
+		return ok && ifc.NumMethods() == 0
+	}
+	n := 0
+	for _, fn := range w.ModFns {
+		if !corePkg(fnPkgPath(fn)) || fn.Blocks == nil {
+			continue
+		}
+		for _, b := range fn.Blocks {
+			for _, in := range b.Instrs {
+				ci, ok := in.(ssa.CallInstruction)
+				if !ok {
+					continue
+				}
+				com := ci.Common()
+				sig := com.Signature()
+				if sig == nil || !sig.Variadic() || len(com.Args) == 0 {
+					continue
+				}
+				last := com.Args[len(com.Args)-1]
+				if !isAnySlice(last.Type()) {
+					continue
+				}
+				// formatting callee: fmt.*, or a module function (they all forward to fmt)
+				name := ""
+				if sc := com.StaticCallee(); sc != nil {
+					name = funcName(sc)
+					if sc.Pkg != nil && sc.Pkg.Pkg.Path() != "fmt" && !corePkg(sc.Pkg.Pkg.Path()) {
+						continue
+					}
+				}
+				sl, ok := last.(*ssa.Slice)
+				if !ok {
+					continue // nil, or a forwarded args... slice (its elements are checked where they are boxed)
+				}
+				al, ok := sl.X.(*ssa.Alloc)
+				if !ok {
+					continue
+				}
+				for _, u := range referrers(al) {
+					ia, ok := u.(*ssa.IndexAddr)
+					if !ok {
+						continue
+					}
+					for _, su := range referrers(ia) {
+						st, ok := su.(*ssa.Store)
+						if !ok {
+							continue
+						}
+						n++
+						idx := "?"
+						if c, ok := ia.Index.(*ssa.Const); ok {
+							idx = c.Value.String()
+						}
+						construct := fmt.Sprintf("operand %s of %s in %s", idx, name, funcName(fn))
+						var t types.Type
+						val := st.Val
+						for {
+							if ch, ok := val.(*ssa.ChangeInterface); ok {
+								val = ch.X
+								continue
+							}
+							break
+						}
+						if mi, ok := val.(*ssa.MakeInterface); ok {
+							t = mi.X.Type()
+						} else {
+							t = val.Type()
+						}
+						// the verb: %T prints the type only, %p always an address
+						verb := byte(0)
+						if len(com.Args) >= 2 {
+							if f, ok := constString(com.Args[len(com.Args)-2]); ok {
+								if c, ok := ia.Index.(*ssa.Const); ok {
+									if i, exact := constant.Int64Val(c.Value); exact {
+										verb = nthVerb(f, int(i))
+									}
+								}
+							}
+						}
+						if verb == 'T' {
+							r.ok(rule, construct, w.pos(ci.Pos()), "printed with %T: only the dynamic type's name")
+							continue
+						}
+						if verb == 'p' {
+							r.bad(rule, construct, w.pos(ci.Pos()), "printed with %p: an address")
+							continue
+						}
+						if pn, ok := b.Instrs[len(b.Instrs)-1].(*ssa.Panic); ok {
+							if stt, _ := w.deadPanic(pn); stt == Discharged {
+								r.ok(rule, construct, w.pos(ci.Pos()), "the message of a panic that C04/R2 shows unreachable (every type that can flow to the switched value has a case)")
+								continue
+							}
+						}
+						if ok, why := addrFree(t, 0); !ok {
+							// an interface operand is fine when it is statically an error / Stringer (covered above);
+							// the value recovered from a panic that is re-thrown unformatted never gets here
+							r.bad(rule, construct, w.pos(ci.Pos()), "formats a value of type "+t.String()+": "+why+"; the text depends on where the allocator put it, not on the input")
+						} else {
+							r.ok(rule, construct, w.pos(ci.Pos()), "operand type "+t.String()+" is address-free")
+						}
+					}
+				}
+			}
+		}
+	}
+	_ = n
+}
+
+// nthVerb: the verb letter consuming operand n of a fmt format string (0 when it cannot be told:
+// explicit argument indexes, '*' widths, too few verbs).
+func nthVerb(f string, n int) byte {
+	k := 0
+	for i := 0; i < len(f); i++ {
+		if f[i] != '%' {
+			continue
+		}
+		i++
+		for i < len(f) && strings.IndexByte("+-# 0123456789.", f[i]) >= 0 {
+			i++
+		}
+		if i >= len(f) {
+			return 0
+		}
+		switch f[i] {
+		case '%':
+			continue
+		case '[', '*':
+			return 0
+		}
+		if k == n {
+			return f[i]
+		}
+		k++
+	}
+	return 0
 }
